@@ -395,3 +395,19 @@ func lemmaOriginRoundTrip(p []byte) ([]byte, int) {
 //@ func RegisterToggleQualifier(names ...string)
 //@   trusted appends to a package-level registry and sorts it; process-global state outside the model
 //@   assigns nothing
+
+// GenBank as a gts.Sequence: the With* methods build a new record value around the given part
+// and keep the other parts; nothing is written.
+//@ func (gb GenBank) Features() (ff gts.FeatureSlice)
+//@   prop C11
+//@   ensures sameslice(ff, gb.Table)
+//@   assigns nothing
+//@ func (gb GenBank) WithFeatures(ff []gts.Feature) (out gts.Sequence)
+//@   prop C11
+//@   ensures is(out, GenBank) && sameslice(out.(GenBank).Table, ff) && out.(GenBank).Origin == gb.Origin
+//@   assigns nothing
+//@ func (gb GenBank) WithBytes(p []byte) (out gts.Sequence)
+//@   prop C11
+//@   requires len(p) < 999999940
+//@   ensures is(out, GenBank) && sameslice(out.(GenBank).Table, gb.Table) && !isnil(out.(GenBank).Origin)
+//@   assigns nothing
